@@ -53,7 +53,18 @@ def run_batch(prop, tier, runs=None, budget=None, workers=None, quiet=False,
   rc = 0
   summaries = []
   for part in range(len(PROPS[prop])):
-    prc, summ = _run_part(prop, part, tier, runs, budget, workers, quiet, seed)
+    try:
+      prc, summ = _run_part(prop, part, tier, runs, budget, workers, quiet, seed)
+    except kernel.HarnessError as e:
+      # a part whose machinery failed decides nothing; it must not hide the
+      # verdict of a part that reproduced a violation (exit 1 stays exit 1),
+      # and it can never turn into exit 0
+      print("HARNESS-ERROR [%s]: %s" % (PROPS[prop][part][0], e))
+      sys.stdout.flush()
+      prc = 2
+      summ = {"agg": {}, "new": [], "lines": [], "wall": 0.0,
+              "coverage": {"evaluations": 0, "distinct_nontrivial": 0,
+                           "rule": "part failed with a harness error", "samples": []}}
     summaries.append(summ)
     if prc == 1 or rc == 1:
       rc = 1
